@@ -5,6 +5,7 @@ from ..engines import jump
 PROP = "C04"
 BUDGET = {"quick": 1400, "thorough": 30000}
 ALARM_S = 900
+ALARM_IS_VERDICT = True       # the property says that the simulation returns
 RULE = ("seeded random event models (1-5 states, 1-5 events of 1-3 T/B/D transitions, integer magnitudes 1-3, "
         "optional limits, range-style names) x integer x0 x horizon x {exact, adaptive tau, fixed tau} x "
         "R seam {natural stream, scripted stream with tiny/huge/tied clocks and zero/tail Poisson counts}; "
